@@ -70,6 +70,94 @@ CATALOGUE = [
  ('index-off-by-one', 'C13', 'trashcli/restore/restore_asking_the_user.py',
   'file_to_restore = [input_read.trashed_files[index] for index in',
   'file_to_restore = [input_read.trashed_files[index - 1] for index in'),
+ ('c03-safe-percent', 'C03', 'trashcli/put/format_trash_info.py',
+  "return url_quote(original_location, '/')", "return url_quote(original_location, '/%')"),
+ ('c03-unquote-plus', 'C03', 'trashcli/parse_trashinfo/parse_path.py',
+  "from six.moves.urllib.parse import unquote", "from six.moves.urllib.parse import unquote_plus as unquote"),
+ ('c03-date-format', 'C03', 'trashcli/put/format_trash_info.py',
+  'return deletion_date.strftime("%Y-%m-%dT%H:%M:%S")', 'return deletion_date.strftime("%Y-%m-%d %H:%M:%S")'),
+ ('c01-no-info-removal', 'C01', 'trashcli/put/janitor_tools/put_trash_dir.py',
+  """            try:
+                self.fs.remove_file(paths.trashinfo_path)
+            except (IOError, OSError):
+                pass  # the failure to trash is reported anyway
+""", ""),
+ ('c04-drop-excl', 'C04', 'trashcli/fs.py',
+  "os.O_WRONLY | os.O_CREAT | os.O_EXCL", "os.O_WRONLY | os.O_CREAT"),
+ ('c04-drop-probe', 'C04', 'trashcli/put/janitor_tools/info_file_persister.py',
+  """            if os.path.lexists(path_of_backup_copy(trashinfo_path)):
+                index += 1
+                continue
+""", ""),
+ ('c04-mkdir-check-then-create', 'C04', 'trashcli/put/dir_maker.py',
+  """        try:
+            self.fs.makedirs(path, mode)
+        except OSError:
+            if not self.fs.isdir(path):
+                raise""",
+  """        if not self.fs.isdir(path):
+            self.fs.makedirs(path, mode)"""),
+ ('c07-drop-realpath', 'C07', 'trashcli/put/trash_dir_volume_reader.py',
+  """        return self.fs.volume_of(
+            self.fs.realpath(norm_trash_dir_path))""",
+  """        return self.fs.volume_of(norm_trash_dir_path)"""),
+ ('c07-mode-755', 'C07', 'trashcli/put/janitor_tools/trash_dir_creator.py',
+  "self.dir_maker.mkdir_p(candidate.trash_dir_path, 0o700)", "self.dir_maker.mkdir_p(candidate.trash_dir_path, 0o755)"),
+ ('c18-exists', 'C18', 'trashcli/put/trasher.py',
+  "if not self.fs.lexists(path):", "if not self.fs.exists(path):"),
+ ('c18-no-normpath', 'C18', 'trashcli/put/janitor_tools/put_trash_dir.py',
+  "fs.move(os.path.normpath(src), dest)", "fs.move(src, dest)"),
+ ('c16-break-on-failure', 'C16', 'trashcli/put/context.py',
+  """                failed_paths.append(path)
+""", """                failed_paths.append(path)
+                break
+"""),
+ ('c16-exit-code', 'C16', 'trashcli/put/reporting/trash_put_reporter.py',
+  "        if not result.any_failure():", "        if len(result.failed_paths) < 2:"),
+ ('c16-narrow-except', 'C16', 'trashcli/put/janitor_tools/info_creator.py',
+  "except (IOError, OSError, UnicodeError) as error:", "except (IOError, OSError) as error:"),
+ ('c17-unbounded-retry', 'C17', 'trashcli/put/janitor_tools/info_file_persister.py',
+  "while index < self.max_attempts:", "while True:"),
+ ('c17-move-fallback-any-error', 'C17', 'trashcli/put/fs/real_fs.py',
+  """            if e.errno != errno.EXDEV:
+                raise
+""", ""),
+ ('c08-put-skip-sticky', 'C08', 'trashcli/put/janitor_tools/security_check.py',
+  """            if not self.fs.has_sticky_bit(parent):
+                return Left(TrashDirIsNotSecureBecauseNotSticky())
+""", ""),
+ ('c08-scanner-no-symlink-check', 'C08', 'trashcli/trash_dirs_scanner.py',
+  """        if self.reader.is_symlink(parent_trashdir):
+            return top_trash_dir_invalid_because_parent_is_symlink
+        else:
+            return top_trash_dir_valid""", """        return top_trash_dir_valid"""),
+ ('c19-list-except', 'C19', 'trashcli/list/list_trash_action.py',
+  "except (IOError, OSError, UnicodeDecodeError) as e:", "except IOError as e:"),
+ ('c20-list-no-join', 'C20', 'trashcli/list/list_trash_action.py',
+  "original_location = os.path.join(volume, relative_location)", "original_location = relative_location"),
+ ('c15-restore-info-first', 'C15', 'trashcli/restore/restorer.py',
+  """        self.write_fs.move(trashed_file.original_file, trashed_file.original_location)
+        self.write_fs.remove_file(trashed_file.info_file)""",
+  """        self.write_fs.remove_file(trashed_file.info_file)
+        self.write_fs.move(trashed_file.original_file, trashed_file.original_location)"""),
+ ('c05-move-before-info', 'C05', 'trashcli/put/janitor.py',
+  """        try:
+            trashed_file = self.executor.execute(persisting_job, log_data)
+        except (IOError, OSError) as error:
+            return make_error(Left(UnableToCreateTrashInfo(error)))
+        trashed = self.trash_dir.try_trash(trashee.path, trashed_file)
+        if isinstance(trashed, Left):
+            return make_error(trashed)
+""", """        guess = TrashedFile(trashinfo_data.value().info_dir_path + '/' +
+                            trashinfo_data.value().basename + '.trashinfo')
+        trashed = self.trash_dir.try_trash(trashee.path, guess)
+        if isinstance(trashed, Left):
+            return make_error(trashed)
+        try:
+            trashed_file = self.executor.execute(persisting_job, log_data)
+        except (IOError, OSError) as error:
+            return make_error(Left(UnableToCreateTrashInfo(error)))
+"""),
 ]
 
 
